@@ -60,6 +60,12 @@ def inner_exprs(r, big_ok, huge=False):
             n = r.choice([0, 1, 2, 3, 6])
             et = r.choice([None, 0x8100, 0x88a8, 0x0800, 0x0806, 0x86dd, 0x6558, 0x88be, 0x9100, r.below(65536)])
             macs = ('"|%s|", "|%s|"' % (r.bytes(6).hex(), r.bytes(6).hex())) if r.chance(1, 2) else '"|020000000001|", "|020000000002|"'
+            if r.chance(1, 3):
+                # destination (and source) addresses a bridge or a mirror port treats specially: broadcast, IPv4/IPv6 multicast, the
+                # 802.1D reserved group addresses (STP, pause, LACP, 802.1X, LLDP), Cisco discovery, all-zero - a tunnel carries them all
+                SPECIAL = ['ffffffffffff', '01005e0000fb', '3333000000fb', '0180c2000000', '0180c2000001', '0180c2000002', '0180c2000003', '0180c200000e',
+                           '0180c200000f', '0180c2000010', '01000ccccccc', '000000000000', '0180c20000%02x' % r.below(256)]
+                macs = '"|%s|", "|%s|"' % (r.choice(SPECIAL + [r.bytes(6).hex()] * 4), r.choice(SPECIAL))
             body = ('"|%s|"' % (r.choice(['0064', '0fff', 'e001']) + r.choice(['0800', '8100', '86dd']) + r.bytes(n).hex())) if et in (0x8100, 0x88a8, 0x9100) else ('"|%s|"' % r.bytes(n).hex() if n else '')
             opts.append(('eth::frame(%s%s%s)' % (macs, ', ethertype: %d' % et if et is not None else '', ', ' + body if body else ''), True))
         elif k == 4:
@@ -179,8 +185,9 @@ def check_multi(c, r, kind, tag):
     body, used, inner = [], [], []
     for k in range(2 + r.below(8)):
         ss = r.choice(sessions)
-        fr = bytes([2, 0, 0, 0, 0, 2, 2, 0, 0, 0, 0, 1]) + r.bytes(2 + r.below(20))
-        e = 'eth::frame("|020000000001|", "|020000000002|", ethertype: %d%s)' % (int.from_bytes(fr[12:14], 'big'), ', "|%s|"' % fr[14:].hex() if len(fr) > 14 else '')
+        dst = r.choice([bytes([2, 0, 0, 0, 0, 2])] * 3 + [bytes.fromhex(x) for x in ('ffffffffffff', '01005e000001', '0180c2000000', '0180c200000e', '333300000001', '000000000000')])
+        fr = dst + bytes([2, 0, 0, 0, 0, 1]) + r.bytes(2 + r.below(20))
+        e = 'eth::frame("|020000000001|", "|%s|", ethertype: %d%s)' % (dst.hex(), int.from_bytes(fr[12:14], 'big'), ', "|%s|"' % fr[14:].hex() if len(fr) > 14 else '')
         w, pi = ss.wrap(e, r, True)
         body.append(w + ';'); used.append((ss, pi)); inner.append(fr)
     src = ('\n'.join(head + [x.decl for x in sessions] + body) + '\n').encode()
